@@ -636,6 +636,19 @@ func (e *Exec) run(fn *ssa.Function, args []Value, bindings []Value) Value {
 		}
 		for _, ins := range blk.Instrs[nphi:] {
 			e.steps++
+			if e.inInit {
+				// package initialisers run leniently: an instruction the engine cannot execute
+				// (registration of protobuf types, third-party tables...) leaves a zero value behind
+				if _, isCtl := ins.(*ssa.If); !isCtl {
+					if _, isJ := ins.(*ssa.Jump); !isJ {
+						if _, isR := ins.(*ssa.Return); !isR {
+							if e.lenientInstr(fr, ins) {
+								continue
+							}
+						}
+					}
+				}
+			}
 			switch in := ins.(type) {
 			case *ssa.Alloc:
 				fr.locals[in] = &PtrV{&Cell{v: e.zero(in.Type().(*types.Pointer).Elem()), global: e.inInit}}
@@ -780,6 +793,42 @@ func (e *Exec) run(fn *ssa.Function, args []Value, bindings []Value) Value {
 		}
 		prev, blk = blk, next
 	}
+}
+
+// lenientInstr executes one non-control instruction of an initialiser; on failure it binds a zero
+// value and reports true (handled). It reports false when the instruction should be executed by
+// the normal switch (which it does itself by re-dispatching through execOne).
+func (e *Exec) lenientInstr(fr *Frame, ins ssa.Instruction) (handled bool) {
+	call, isCall := ins.(*ssa.Call)
+	if !isCall {
+		return false
+	}
+	depth, frame, stack := e.depth, e.frame, len(e.callStack)
+	defer func() {
+		if r := recover(); r != nil {
+			switch r.(type) {
+			case engineErr, goPanic:
+				e.depth, e.frame = depth, frame
+				e.callStack = e.callStack[:stack]
+				e.initNotes = append(e.initNotes, fmt.Sprintf("initialiser call skipped in %s: %v", fr.fn, r))
+				fr.locals[call] = e.zeroSafe(call.Type())
+				handled = true
+			default:
+				panic(r)
+			}
+		}
+	}()
+	fr.locals[call] = e.doCall(fr, call.Common())
+	return true
+}
+
+func (e *Exec) zeroSafe(t types.Type) (v Value) {
+	defer func() {
+		if r := recover(); r != nil {
+			v = nil
+		}
+	}()
+	return e.zero(t)
 }
 
 func shortName(n string) string {
